@@ -63,3 +63,9 @@ claim("C18", "other",
       "Decides the allocator's ownership discipline that is necessary for invisibility: receive page tagged with the id the packet will get, READ page tagged with the request's own order id at all sites, one shared allocator, release only after the matching send under the head's order id, allocator state under its mutex, lent page leaves the free list and enters the used table, Free only in Serve's deferred function, page slices bounded by the page length. Byte-identity of response streams is not decided.",
       "Assumes every request is answered (C02) so that every page is eventually released.",
       "DESIGN.md section 4, C18")
+
+claim("C19", "other",
+      "dominance rules on the handshake, who-may-write on the extension tables, provenance of the new extension list (freshness/aliasing), table extraction of advertised vs decoded names",
+      "Decides the structural conditions of truthful negotiation on every path: Client only after type==VERSION and version==3 on checked decodes with the writer closed on failure; ext written only from the VERSION packet; fsync only when advertised; INIT answered with version 3 and the configured list; all-or-nothing replacement of the list from a fresh slice of validated elements; advertised ⊆ decoded names, client encoder names ⊆ decoded names; unknown extended requests keep the session and get op-unsupported in both servers.",
+      "Third-party peers are out of scope; extension data strings beyond table equality are not decided.",
+      "DESIGN.md section 4, C19")
